@@ -8,7 +8,7 @@ package c06
 // ballot facts and sign facts, really signed embedded voteproofs, expel operations) and
 // box.LastPoint() is read before and after every call of Vote / Count / SetLastPoint.
 //
-//	votes --maxh H --maxr R --num N --len L --out prefix
+//	votes --family f1|f1late|f2|rnd|all --maxh H --maxr R --num N --len L --out prefix
 //
 // writes one trace per family (events separated by "Reset"):
 //
@@ -578,28 +578,30 @@ func votes(fl map[string]string) error {
 		unsettled += r.unsettled
 		return nil
 	}
-	if err := family("f1", func(run func(vhist) error) error { return familyOne(maxh, maxr, run) }); err != nil {
-		return err
-	}
-	if err := family("f1late", func(run func(vhist) error) error {
-		return familyOneLate(maxh, maxr, os.Getenv("VERIF_TIER") == "thorough", run)
-	}); err != nil {
-		return err
-	}
-	if err := family("f2", func(run func(vhist) error) error { return familyTwo(maxh, maxr, run) }); err != nil {
-		return err
-	}
-	if err := family("rnd", func(run func(vhist) error) error {
-		rng := rand.New(rand.NewSource(seed*7919 + 17))
-		for i := 0; i < num; i++ {
-			// longer flows need more heights and rounds than the exhaustive families
-			if err := run(randomHist(rng, maxh+1, maxr+1, length)); err != nil {
-				return err
+	gens := map[string]func(run func(vhist) error) error{
+		"f1": func(run func(vhist) error) error { return familyOne(maxh, maxr, run) },
+		"f1late": func(run func(vhist) error) error {
+			return familyOneLate(maxh, maxr, os.Getenv("VERIF_TIER") == "thorough", run)
+		},
+		"f2": func(run func(vhist) error) error { return familyTwo(maxh, maxr, run) },
+		"rnd": func(run func(vhist) error) error {
+			rng := rand.New(rand.NewSource(seed*7919 + 17))
+			for i := 0; i < num; i++ {
+				// longer flows need more heights and rounds than the exhaustive families
+				if err := run(randomHist(rng, maxh+1, maxr+1, length)); err != nil {
+					return err
+				}
 			}
+			return nil
+		},
+	}
+	for _, name := range []string{"f1", "f1late", "f2", "rnd"} {
+		if fl["family"] != "" && fl["family"] != "all" && fl["family"] != name {
+			continue
 		}
-		return nil
-	}); err != nil {
-		return err
+		if err := family(name, gens[name]); err != nil {
+			return err
+		}
 	}
 	fmt.Printf("%v unsettled=%d\n", total, unsettled)
 	if unsettled > 0 {
